@@ -1,7 +1,7 @@
 (* Props/C05.v -- coherent dedispersion: cold-plasma chirp, group delay, crop to valid times. *)
 From Coq Require Import ZArith QArith Qround Qminmax Reals.
 From Coquelicot Require Import Coquelicot.
-From PB Require Import Gen.GenConsts Model.Ledger Model.Band Model.Disp Proofs.LedgerProofs Proofs.DispProofs Proofs.ChirpR Lib.Dft Lib.DftC Proofs.ChirpFilter.
+From PB Require Import Gen.GenConsts Model.Ledger Model.Band Model.Disp Proofs.LedgerProofs Proofs.DispProofs Proofs.ChirpR Lib.Dft Lib.DftC Proofs.ChirpFilter Gen.GenDisp Proofs.DispGen.
 
 (* exact part, over Q *)
 Theorem C05_constant : (Kdisp == 1000000 # 241)%Q.
@@ -54,6 +54,18 @@ Proof. exact dedisp_roundtrip. Qed.
 (* partial: the CROPPED two-pass round trip on a compactly supported input (the crop between the passes drops part of the
    filter's response) and scipy.fft = this DFT are checked numerically by the harness. *)
 
+(* tie to the source by translation (T5, with its unit algebra): the chirp phase in cycles and the sign of the exponent, the delay in
+   samples, which band edge feeds which delay and the start / stop of the crop are the terms GENERATED from dedispersion.py on this run *)
+Theorem C05_generated_phase : forall dm f fr, (chirp_phase dm f fr == gen_chirp_phase dm f fr)%Q /\ gen_chirp_sign = (-1)%Z.
+Proof. exact (fun dm f fr => conj (chirp_phase_generated dm f fr) chirp_sign_generated). Qed.
+Theorem C05_generated_delay : forall dm f fr rate, (sample_delay dm f fr rate == gen_sample_delay dm f fr rate)%Q.
+Proof. exact sample_delay_generated. Qed.
+Theorem C05_generated_crop : forall (l : ledger) (fmax fmin dm fr : Q),
+  coherent_crop l fmax fmin dm fr =
+  step l (ODedispCrop (gen_crop_start (gen_delay_top dm fmax fmin fr (rate l)) (gen_delay_bot dm fmax fmin fr (rate l)))
+                      (gen_crop_stop (len l) (gen_delay_top dm fmax fmin fr (rate l)) (gen_delay_bot dm fmax fmin fr (rate l)))).
+Proof. exact coherent_crop_generated. Qed.
+
 Print Assumptions C05_crop_sound.
 Print Assumptions C05_delay_between.
 Print Assumptions C05_crop_ledger.
@@ -62,3 +74,5 @@ Print Assumptions C05_inverse_partial.
 Print Assumptions C05_spectrum.
 Print Assumptions C05_roundtrip_uncropped.
 Print Assumptions C05_compose.
+Print Assumptions C05_generated_crop.
+Print Assumptions C05_generated_phase.
